@@ -1338,11 +1338,23 @@ where
 			if let Some(k) = kernel {
 				debug!("Kernel Retrieved: {:?}", k);
 				wallet_lock!(wallet_inst, w);
-				let mut batch = w.batch(keychain_mask)?;
-				tx.confirmed = true;
-				tx.update_confirmation_ts();
-				batch.save_tx_log_entry(tx.clone(), &parent_key_id)?;
-				batch.commit()?;
+				// re-read the entry: it may have been cancelled / changed since the list was read
+				let cur = updater::retrieve_txs(
+					&mut **w,
+					Some(tx.id),
+					None,
+					None,
+					Some(&parent_key_id),
+					true,
+				)?;
+				if let Some(mut cur) = cur.into_iter().next() {
+					let mut batch = w.batch(keychain_mask)?;
+					cur.confirmed = true;
+					cur.update_confirmation_ts();
+					batch.save_tx_log_entry(cur.clone(), &parent_key_id)?;
+					batch.commit()?;
+					*tx = cur;
+				}
 			}
 		} else {
 			warn!("Attempted to update via kernel excess for transaction {:?}, but kernel excess was not stored", tx.tx_slate_id);
